@@ -8,6 +8,7 @@ import (
 
 	"github.com/corazawaf/coraza/v3"
 	"github.com/corazawaf/coraza/v3/experimental/plugins/plugintypes"
+	"github.com/corazawaf/coraza/v3/internal/corazawaf"
 	"github.com/corazawaf/coraza/v3/types"
 )
 
@@ -144,6 +145,7 @@ type Outcome struct {
 	Fired     []Fired           `json:"fired"`
 	TX        map[string]string `json:"tx"`
 	Highest   string            `json:"highest_severity"`
+	Parts     string            `json:"audit_parts,omitempty"` // the transaction's audit-log parts after logging
 	Errs      []string          `json:"errors,omitempty"`
 }
 
@@ -237,6 +239,13 @@ func runCanonical(w coraza.WAF, r *Req) (out *Outcome, fail *Failure) {
 			out.Intr = intrOf(tx.Interruption())
 			out.Fired = collectFired(tx)
 			out.TX, out.Highest = collectTX(tx)
+			if ctx, ok := tx.(*corazawaf.Transaction); ok {
+				b := make([]byte, 0, len(ctx.AuditLogParts))
+				for _, p := range ctx.AuditLogParts {
+					b = append(b, byte(p))
+				}
+				out.Parts = string(b)
+			}
 		}
 		tx.ProcessConnection("10.0.0.1", 40000, "10.0.0.2", 80)
 		tx.ProcessURI(r.URI(), r.Method, "HTTP/1.1")
